@@ -33,6 +33,7 @@ SUPPLY_SETS = {
     "usdc+wethN": [("USDC", "5000", True), ("WETH", "1", False)],
     "three": [("WETH", "1.5", True), ("USDC", "2000", True), ("WBTC", "0.05", True)],
     "onlyN": [("USDT", "1000", False), ("WETH", "1", False)],
+    "weth+link0": [("WETH", "1", True), ("LINK", "100", True)],  # LINK: collateral with a max-LTV of 0
 }
 DEBT_SETS = {
     "none": [],
@@ -49,7 +50,7 @@ PRICE_VECTORS = {
     "depeg": {"DAI": "1.03", "USDC": "0.985"},
     "crash": {"WETH": "0.55", "WBTC": "0.6", "AAVE": "0.5"},
 }
-QUICK_S = ["weth", "weth+usdc", "weth+usdtN", "three", "wbtc", "onlyN", "usdc+wethN"]
+QUICK_S = ["weth", "weth+usdc", "weth+usdtN", "three", "wbtc", "onlyN", "usdc+wethN", "weth+link0"]
 QUICK_D = ["none", "usdc-low", "usdc-high", "usdc+dai", "weth-debt"]
 QUICK_P = ["same", "weth-10%", "depeg"]
 FACTORS = [("in", Fraction(999, 1000)), ("in6", 1 - Fraction(1, 10**6)), ("out6", 1 + Fraction(1, 10**6)),
@@ -71,7 +72,7 @@ def build_ctx(sname, dname, pname):
     m = aave.make_market(frames)
     ad = aave.AaveAdapter(m, frames)
     ctx = Ctx("aave", prices, USD, [ad], [(aave.WETH, 10), (aave.USDC, 20000), (aave.DAI, 5000), (aave.USDT, 8000), (aave.AAVE, 50),
-                                          (aave.WBTC, 1)], prices.index)
+                                          (aave.WBTC, 1), (aave.LINK, 500)], prices.index)
     ctx.begin_bar(0)
     tok = {t.name: t for t in aave.TOKENS}
     for sym, amt, coll in SUPPLY_SETS[sname]:
@@ -181,10 +182,16 @@ def check_figures(part, ctx, case):
     def close(got, want):
         if want is None:
             return got == Decimal("inf")
+        if not Decimal(got).is_finite():
+            return False  # an infinite / undefined figure where the definition gives a number
         return abs(F(got) - want) <= REL * max(abs(want), 1)
 
-    for name, got, want in (("health_factor", m.health_factor, r["hf"]), ("max_ltv", m.max_ltv, r["max_ltv"]),
-                            ("liquidation_threshold", m.liquidation_threshold, r["lt"]), ("ltv", m.ltv, r["ltv"])):
+    for name, want in (("health_factor", r["hf"]), ("max_ltv", r["max_ltv"]), ("liquidation_threshold", r["lt"]), ("ltv", r["ltv"])):
+        try:
+            got = getattr(m, name)
+        except kit.REJECTIONS as e:
+            part.violation(f"C11|figure|{name}|exception", f"reading {name} raised", case, {"error": repr(e)[:200]})
+            continue
         if not close(got, want):
             part.violation(f"C11|figure|{name}", f"reported {name} differs from its Aave v3 definition", case,
                            {"reported": str(got), "definition": None if want is None else float(want)})
@@ -216,6 +223,10 @@ def run_probe(part, case, ctx, label, depth_tag=""):
         except Exception as e:  # noqa: BLE001
             part.violation(f"C11|helper|max_borrow|exception{depth_tag}", "get_max_borrow_amount raised", case, {"error": repr(e)})
             return None
+    if helper_val is not None and not (isinstance(helper_val, (int, Decimal)) and Decimal(helper_val).is_finite()):
+        part.violation(f"C11|helper|{kind}|not-a-number{depth_tag}", "a max-borrow / max-withdraw helper returned something that is not a finite amount", dict(case, probe=label),
+                       {"helper": repr(helper_val)[:80]})
+        return None
     snap = ctx.snapshot()
     out = kit.apply(ctx, kit.Op(label, lambda c: call()))
     part.count("probes")
@@ -277,21 +288,26 @@ def run_case(args):
             part.violation("C11|build|exception", "building a portfolio with in-limit operations raised", case, {"error": repr(e)})
             continue
         part.count("portfolios")
+        pristine = ctx.snapshot()  # the new bar has just begun: nothing has read a derived figure yet (every memoised view is empty)
         check_figures(part, ctx, case)
         labels = [p[0] for p in probes(ctx)[0]]
         part.sample({"case": case, "probes": len(labels)}, every=13)
-        base = ctx.snapshot()
-        for lab in labels:
-            res = run_probe(part, case, ctx, lab)
-            part.count("transitions")
-            if res and res[0].ok and depth2:
-                mid = ctx.snapshot()
-                labels2 = [p[0] for p in probes(ctx)[0]]
-                for lab2 in labels2:
-                    run_probe(part, dict(case, first=lab), ctx, lab2, "|d2")
-                    part.count("transitions")
-                    ctx.restore(mid)
+        after_read = ctx.snapshot()
+        # every probe is made both as the FIRST thing that touches the account in the bar and after the figures have been read; second probes are
+        # chained after the first kind (they follow the figure comparison that closes every probe, i.e. a read)
+        for base, tag in ((pristine, {"first_touch": True}), (after_read, {})):
             ctx.restore(base)
+            for lab in labels:
+                res = run_probe(part, dict(case, **tag), ctx, lab)
+                part.count("transitions")
+                if res and res[0].ok and depth2 and tag:
+                    mid = ctx.snapshot()
+                    labels2 = [p[0] for p in probes(ctx)[0]]
+                    for lab2 in labels2:
+                        run_probe(part, dict(case, first=lab, **tag), ctx, lab2, "|d2")
+                        part.count("transitions")
+                        ctx.restore(mid)
+                ctx.restore(base)
     return part.result()
 
 
@@ -334,7 +350,8 @@ def replay(run: Run, path):
     case = data["case"]
     part = Part()
     ctx = build_ctx(case["supplies"], case["debts"], case["prices"])
-    check_figures(part, ctx, case)
+    if not case.get("first_touch"):
+        check_figures(part, ctx, case)
     if case.get("first"):
         run_probe(part, case, ctx, case["first"])
         part.violations.clear()
